@@ -171,3 +171,4 @@ def c02_generate_commits_every_atr(ctx, v):
     from . import obl_c13
     obl_c13.c13_generate_commits_every_atr(ctx, v)
 
+
